@@ -693,14 +693,19 @@ class PartialRBF(DiffRBF):
 
     def k_and_deriv(self, X, Y=None):
         if self.active_dims is None:
-            X = X[:, self.start :]
-            if Y is not None:
-                Y = Y[:, self.start :]
+            inds = slice(self.start, None)
         else:
-            X = X[:, self.active_dims]
-            if Y is not None:
-                Y = Y[:, self.active_dims]
-        return super(PartialRBF, self).k_and_deriv(X, Y)
+            inds = self.active_dims
+        Xs = X[:, inds]
+        Ys = Xs if Y is None else Y[:, inds]
+        # Call the parent __call__ directly: self.__call__ would select
+        # the active columns a second time.
+        k = super(PartialRBF, self).__call__(Xs, Ys)
+        dk = np.zeros(k.shape + (X.shape[1],), dtype=k.dtype)
+        dks = k[:, :, None] * (Ys[None, :, :] - Xs[:, None, :])
+        dks /= self.length_scale**2
+        dk[:, :, inds] = dks
+        return k, dk
 
 
 class DiffARBF(DiffRBF):
